@@ -83,6 +83,11 @@ META = {
         "that mapping - the uniquifier (compute_unique_slug, helpers followed) is handed the registry and every value it "
         "returns is, on every path, a name for which `name not in registry` was the last decided membership fact - so no "
         "heading's (slug -> section id, title) entry is overwritten. "
+        "The resolver reads that registry through the same access path below the environment as the renderer saved it. "
+        "R10 rewrite scope: a markdown-it env entry that the Sphinx link handlers read to rewrite destinations "
+        "('relative-docs', set by the include mock around its nested render) is put back to its saved value (or popped, "
+        "directly or by a restoring helper) on every normal and exceptional path after it was set, so that links after the "
+        "include are not rewritten. "
         "R9 label keys: keys looked up in the std domain's labels / anonlabels are lower-cased on every flow "
         "(flow-sensitive, through parameters, their defaults and all call sites)."
     ),
@@ -92,7 +97,8 @@ META = {
         "values themselves (C10); the behaviour of other domains' resolve_any_xref and of intersphinx inventories; the effect "
         "of the relative-docs include option on destinations; the wording of renderer-side warnings; state kept across "
         "builds other than the suppression paths of log_warning (C15); an unguarded constant slice of a destination is "
-        "listed, not judged (R6); whether a library call can raise on a given destination (C01) - R3 only requires the "
+        "listed, not judged (R6); whether the place the slug registry is kept in is merged from parallel readers and purged "
+        "on re-reads (C15: only the agreement of writer and reader location is decided here); whether a library call can raise on a given destination (C01) - R3 only requires the "
         "warning on the paths where the code already treats the lookup as failed"
     ),
     "trusted_base": [
@@ -560,7 +566,7 @@ class Enumerator:
         out = set()
         for n in self.fi.local_nodes():
             if isinstance(n, (ast.Assign, ast.AnnAssign)) and n.value is not None:
-                if any(isinstance(x, ast.Constant) and x.value == "myst_slugs" for x in ast.walk(n.value)):
+                if any((isinstance(x, ast.Constant) and x.value == "myst_slugs") or (isinstance(x, ast.Attribute) and x.attr == "myst_slugs") for x in ast.walk(n.value)):
                     tg = n.targets[0] if isinstance(n, ast.Assign) else n.target
                     if isinstance(tg, ast.Name):
                         out.add(tg.id)
@@ -2710,16 +2716,75 @@ def _returns_verified_absent(corpus: Corpus, callee: FunctionInfo, reg_param: st
     return bad
 
 
+def _env_path(e: ast.expr, fi: FunctionInfo | None = None) -> list[str] | None:
+    """Access path of an expression below the Sphinx environment: ['metadata', '<doc>', "'myst_slugs'"] for
+    env.metadata[docname]['myst_slugs'] (also spelled with .get / getattr and defaults); None if not rooted in env."""
+    steps: list[str] = []
+    x = e
+    for _ in range(12):
+        if isinstance(x, ast.Call) and isinstance(x.func, ast.Attribute) and x.func.attr in ("get", "setdefault") and x.args:
+            a = x.args[0]
+            steps.append(repr(a.value) if isinstance(a, ast.Constant) else "<doc>")
+            x = x.func.value
+        elif isinstance(x, ast.Call) and isinstance(x.func, ast.Name) and x.func.id == "getattr" and len(x.args) >= 2 and isinstance(x.args[1], ast.Constant):
+            steps.append(str(x.args[1].value))
+            x = x.args[0]
+        elif isinstance(x, ast.Subscript):
+            a = x.slice
+            steps.append(repr(a.value) if isinstance(a, ast.Constant) else "<doc>")
+            x = x.value
+        elif isinstance(x, ast.Attribute):
+            d = dotted(x) or ""
+            if d.split(".")[-1] in ("env", "sphinx_env"):
+                return list(reversed(steps))
+            steps.append(x.attr)
+            x = x.value
+        elif isinstance(x, ast.Name) and fi is not None:
+            defs = assignments_to(fi, x.id)
+            if len(defs) == 1 and defs[0][2] is None:
+                x = defs[0][1]  # a local alias such as meta = env.metadata[docname]
+            else:
+                return None
+        else:
+            return None
+    return None
+
+
 @rule("C12.R8")
 def r8_slug_registry_no_overwrite(corpus: Corpus, rep: Report, tier: str):
     rep.rule("C12.R8", "keys stored into the per-document slug registry (env.metadata[doc]['myst_slugs']) were tested absent from it: no heading's entry is overwritten by a later heading")
     fin = corpus.func(f"{BASE_R}._render_finalise")
     reg = None
+    env_writes: list[ast.expr] = []
     for n in fin.local_nodes():
-        if isinstance(n, ast.Assign) and any(isinstance(t, ast.Subscript) and isinstance(t.slice, ast.Constant) and t.slice.value == "myst_slugs" for t in n.targets):
-            reg = dotted(n.value)
-    if not reg or not reg.startswith("self."):
-        raise Unsupported("_render_finalise: the value stored as 'myst_slugs' is not an attribute of the renderer")
+        if isinstance(n, ast.Assign):
+            for t in n.targets:
+                named = any((isinstance(x, ast.Constant) and x.value == "myst_slugs") or (isinstance(x, ast.Attribute) and x.attr == "myst_slugs") for x in ast.walk(t))
+                if named and (dotted(n.value) or "").startswith("self."):
+                    reg = dotted(n.value)
+                    if _env_path(t, fin) is not None:
+                        env_writes.append(t)
+    if not reg:
+        raise Unsupported("_render_finalise: no renderer attribute is saved under the name 'myst_slugs'")
+    # the resolver reads the registry from the place the renderer saved it to (same access path below the environment)
+    res = corpus.func(RESOLVER + ".resolve_myst_ref_doc")
+    reads = []
+    for nd in res.local_nodes():
+        if isinstance(nd, (ast.Assign, ast.AnnAssign)) and nd.value is not None and any((isinstance(x, ast.Constant) and x.value == "myst_slugs") or (isinstance(x, ast.Attribute) and x.attr == "myst_slugs") for x in ast.walk(nd.value)):
+            reads.append(nd.value)
+    if env_writes and reads:
+        wp = [_env_path(w, fin) for w in env_writes]
+        for r in reads:
+            rp = _env_path(r, res)
+            k = f"{res.fq}|slug registry|read from where the renderer saved it"
+            if rp is None:
+                rep.error("C12.R8", f"resolve_myst_ref_doc: cannot read the access path of `{short(r, 60)}`")
+            elif rp in wp:
+                rep.ok("C12.R8", k, res.module.site(r), "env." + ".".join(rp))
+            else:
+                rep.violation("C12.R8", k, res.module.site(r), f"the resolver reads the slug registry from env.{'.'.join(rp)} but the renderer saves it to env.{'.'.join(wp[0])}: no `doc.md#anchor` link can be resolved")
+    else:
+        rep.error("C12.R8", "the environment-level writer or the reader of the slug registry was not found")
     n = 0
     for m in corpus.cls(BASE_R).methods.values():
         for st in m.local_nodes():
@@ -2880,7 +2945,110 @@ def r9_label_keys_lowercased(corpus: Corpus, rep: Report, tier: str):
     rep.expect_min("C12.R9", 2, "anonlabels.get(target) and labels.get(target) in _resolve_ref_nested")
 
 
-RULES = [r1_classification_totality, r2_resolver_totality, r3_exactly_one_warning, r4_from_to_roles, r5_writer_reader_agreement, r6_prefix_removal_exact, r7_local_table_explicit_only, r8_slug_registry_no_overwrite, r9_label_keys_lowercased]
+# ---------------------------------------------------------------------------
+# R10 destination-rewriting settings are scoped to the nested render that set them
+
+
+@rule("C12.R10")
+def r10_rewrite_scope(corpus: Corpus, rep: Report, tier: str):
+    rep.rule("C12.R10", "a markdown-it env entry that rewrites link destinations (read by the Sphinx link handlers) is restored to its saved value on every path after it was set")
+    # keys the Sphinx link handlers read from md_env
+    keys: dict[str, str] = {}
+    for m in corpus.cls(SPHINX_R).methods.values():
+        for c in m.local_nodes():
+            k = None
+            if isinstance(c, ast.Call) and isinstance(c.func, ast.Attribute) and c.func.attr == "get" and (dotted(c.func.value) or "").endswith("md_env") and c.args and isinstance(c.args[0], ast.Constant):
+                k = c.args[0].value
+            elif isinstance(c, ast.Subscript) and isinstance(c.ctx, ast.Load) and (dotted(c.value) or "").endswith("md_env") and isinstance(c.slice, ast.Constant):
+                k = c.slice.value
+            if isinstance(k, str):
+                keys.setdefault(k, f"{m.module.site(c)} ({m.qualname})")
+    if not keys:
+        raise Unsupported("no md_env entry is read by the Sphinx link handlers (relative-docs on the pinned tree)")
+
+    cur: list[FunctionInfo] = []
+
+    def is_md_env(x: ast.expr) -> bool:
+        d = dotted(x) or ""
+        if d.endswith("md_env"):
+            return True
+        if isinstance(x, ast.Name) and cur:
+            defs = assignments_to(cur[-1], x.id)
+            return len(defs) == 1 and defs[0][2] is None and (dotted(defs[0][1]) or "").endswith("md_env")
+        return False
+
+    def env_key(t) -> str | None:
+        if isinstance(t, ast.Subscript) and is_md_env(t.value) and isinstance(t.slice, ast.Constant) and isinstance(t.slice.value, str):
+            return t.slice.value
+        return None
+
+    def saved_key(fi: FunctionInfo, v: ast.expr) -> str | None:
+        """The md_env key whose previous value the expression holds (a name bound once to md_env.get(K) / md_env[K])."""
+        if isinstance(v, ast.Name):
+            defs = assignments_to(fi, v.id)
+            if len(defs) == 1 and defs[0][2] is None:
+                d = defs[0][1]
+                if isinstance(d, ast.Call) and isinstance(d.func, ast.Attribute) and d.func.attr in ("get", "pop") and is_md_env(d.func.value) and d.args and isinstance(d.args[0], ast.Constant):
+                    return d.args[0].value
+                if isinstance(d, ast.Subscript) and env_key(d) is not None:
+                    return env_key(d)
+        return None
+
+    n = 0
+    for fi in corpus.all_functions():
+        if fi.is_lambda:
+            continue
+        sets, restores = [], []
+        cur[:] = [fi]
+        for nd in fi.local_nodes():
+            if isinstance(nd, ast.Assign):
+                for t in nd.targets:
+                    k = env_key(t)
+                    if k in keys:
+                        if isinstance(nd.value, ast.Name) and nd.value.id in fi.params and not assignments_to(fi, nd.value.id):
+                            continue  # stores what its caller hands in: judged at the call sites (restoring helper)
+                        (restores if saved_key(fi, nd.value) == k else sets).append((k, nd))
+            elif isinstance(nd, ast.Delete):
+                for t in nd.targets:
+                    if env_key(t) in keys:
+                        restores.append((env_key(t), nd))
+            elif isinstance(nd, ast.Expr) and isinstance(nd.value, ast.Call) and isinstance(nd.value.func, ast.Attribute) and nd.value.func.attr == "pop" and is_md_env(nd.value.func.value) and nd.value.args and isinstance(nd.value.args[0], ast.Constant) and nd.value.args[0].value in keys:
+                restores.append((nd.value.args[0].value, nd))
+            elif isinstance(nd, ast.Expr) and isinstance(nd.value, ast.Call):
+                # a restoring helper: it is handed the saved value and stores / pops the entry itself
+                callee = self_callee(corpus, fi, nd.value)
+                if callee is None:
+                    lc = _local_callee(fi, nd.value)
+                    callee = lc[0] if lc else None
+                if callee is not None and not callee.is_lambda:
+                    for a in list(nd.value.args) + [kw.value for kw in nd.value.keywords]:
+                        k = saved_key(fi, a)
+                        if k in keys and any((isinstance(x, ast.Subscript) and env_key(x) == k and isinstance(x.ctx, (ast.Store, ast.Del))) or (isinstance(x, ast.Call) and isinstance(x.func, ast.Attribute) and x.func.attr == "pop" and x.args and isinstance(x.args[0], ast.Constant) and x.args[0].value == k) for x in callee.local_nodes()):
+                            restores.append((k, nd))
+        if not sets:
+            continue
+        rep.saw_function(fi.fq)
+        cfg = get_cfg(fi)
+        for k, st in sets:
+            n += 1
+            key = f"{fi.fq}|md_env[{k!r}] = ...|restored on every path"
+            site = fi.module.site(st)
+            rs = [cfg.stmt_of(r) for kk, r in restores if kk == k]
+            start = cfg.stmt_of(st)
+            leak = None
+            for stop in (EXIT, "RAISE"):
+                if stop in cfg.reachable_from(start) and cfg.paths_avoiding(start, stop, lambda x: any(x is r for r in rs)):
+                    leak = stop
+                    break
+            if leak is None:
+                rep.ok("C12.R10", key, site, f"{len(rs)} restoring store(s); read at {keys[k]}")
+            else:
+                how = "returns" if leak == EXIT else "raises"
+                rep.violation("C12.R10", key, site, f"after `{short(st, 50)}` a path {how} without putting the saved value of md_env[{k!r}] back (no unconditional restore / pop): the setting outlives the nested render, and `{keys[k].split('(')[-1].rstrip(')')}` rewrites the destinations of links in the rest of the including document")
+    rep.expect_min("C12.R10", 1, "MockIncludeDirective.run sets relative-docs around the nested render")
+
+
+RULES = [r10_rewrite_scope, r1_classification_totality, r2_resolver_totality, r3_exactly_one_warning, r4_from_to_roles, r5_writer_reader_agreement, r6_prefix_removal_exact, r7_local_table_explicit_only, r8_slug_registry_no_overwrite, r9_label_keys_lowercased]
 
 
 # ---------------------------------------------------------------------------
@@ -3136,4 +3304,26 @@ def mutants(corpus: Corpus):
         add("c12-project-lookup-error-silent", "C12.R3", sx, h.body[-1], seg, expect="render_link_project")
     else:
         out.append(("c12-project-lookup-error-silent", "except handler not found"))
+    # --- round-5 seed classes ---
+    # R10: the relative-docs setting is restored on every path
+    mk = corpus.mod("mocking")
+    f = mk.func("MockIncludeDirective.run")
+    rst = _stmt_of(f, lambda n: isinstance(n, ast.Assign) and isinstance(n.targets[0], ast.Subscript) and isinstance(n.targets[0].slice, ast.Constant) and n.targets[0].slice.value == "relative-docs" and isinstance(n.value, ast.Name))
+    if rst is not None:
+        seg = ast.get_source_segment(mk.src, rst)
+        add("c12-relative-docs-restore-only-when-set", "C12.R10", mk, rst, f"if {rst.value.id} is not None:\n{indent_of(f, rst)}    {seg}", expect="relative-docs")
+        add("c12-relative-docs-restore-dropped", "C12.R10", mk, rst, "pass", expect="relative-docs")
+        other = _stmt_of(f, lambda n: isinstance(n, ast.Assign) and isinstance(n.targets[0], ast.Name) and isinstance(n.value, ast.Call) and "relative-images" in unparse(n.value) and ".get(" in unparse(n.value))
+        if other is not None:
+            add("c12-relative-docs-restored-from-images", "C12.R10", mk, rst.value, other.targets[0].id, expect="relative-docs")
+    else:
+        out.append(("c12-relative-docs-restore-only-when-set", "restore statement not found"))
+    # R8: the resolver reads the slug registry from where the renderer saved it
+    g = rf.func("MystReferenceResolver.resolve_myst_ref_doc")
+    rd = find_node(g, lambda n: isinstance(n, ast.Call) and isinstance(n.func, ast.Attribute) and n.func.attr == "get" and n.args and isinstance(n.args[0], ast.Constant) and n.args[0].value == "myst_slugs")
+    if rd is not None and isinstance(rd.func.value, ast.Subscript):
+        inner = rd.func.value
+        add("c12-slug-registry-read-from-other-place", "C12.R8", rf, rd, f'{unparse(inner.value)}.get("myst_slugs", {{}}).get({unparse(inner.slice)}, {{}})', expect="read from where")
+    else:
+        out.append(("c12-slug-registry-read-from-other-place", "reader of the slug registry not found"))
     return out
